@@ -272,7 +272,23 @@ C04Code(v, code, resp) ==
         !.label = v \o "/du_code" \o ToString(code) \o "/from_" \o (IF resp = "TARGET" THEN "target" ELSE "router"),
         !.path = [@ EXCEPT !["3"] = <<[form |-> "du_port", from |-> resp, delay_us |-> 4000, tag |-> "x", mods |-> [icode |-> code]]>>]]
 C04Codes == UNION { { C04Code(v, c, r) : c \in DuCodes(v), r \in {"TARGET", Router(v, 3)} } : v \in Variants }
-C04All(u) == C04Codes \cup UNION { { C04Scen(v, s, f, r, l) : s \in StrictOpts(v), f \in C04Forms(v), r \in Responders(v), l \in BOOLEAN } : v \in Variants }
+\* SACK: the target's own time-exceeded (a proof of arrival for this variant) is read AFTER a selective ACK for a higher TTL was:
+\* the mark does not depend on what was seen before
+C04SackTeLate(strict, k, teDelay) ==
+    Common("sack", strict, BaseMid, 1, 5) @@
+    [id |-> "C04/sack/" \o (IF strict THEN "strict" ELSE "relaxed") \o "/te_from_target_after_sack/" \o ToString(k) \o "/" \o ToString(teDelay),
+     label |-> "sack/te/from_target/after_a_selective_ack",
+     path |-> PathOf([t \in 1..5 |-> IF t = k THEN <<[form |-> "te", from |-> "TARGET", delay_us |-> teDelay, tag |-> "x"]>>
+                                      ELSE IF t > k THEN <<Dest("sack", 2000)>> ELSE <<TE("sack", t, 3000 + 500 * t)>>])]
+\* ICMP towards a MULTICAST group address (legal, traced like any other target): an echo reply from a member's own address is not
+\* a reply from the target - the matcher's rule is the same for every target
+C04Group(v, grp) ==
+    [Common(v, TRUE, BaseMid, 1, 4) EXCEPT !.min = 1] @@
+    [id |-> "C04/" \o v \o "/group_target/" \o grp, label |-> v \o "/echo/from_foreign/multicast_target", target |-> grp,
+     path |-> PathOf([t \in 1..4 |-> IF t >= 2 THEN <<[form |-> "echo", from |-> Foreign(v, 7), delay_us |-> 4000, tag |-> "x"]>> ELSE <<TE(v, t, 3000)>>])]
+C04All(u) == { C04SackTeLate(s, k, d) : s \in BOOLEAN, k \in {2, 3}, d \in {100000, 250000} }
+             \cup { C04Group("icmp4", "224.0.0.1"), C04Group("icmp4", "239.1.2.3"), C04Group("icmp6", "ff02::1"), C04Group("icmp6", "ff0e::99") }
+             \cup C04Codes \cup UNION { { C04Scen(v, s, f, r, l) : s \in StrictOpts(v), f \in C04Forms(v), r \in Responders(v), l \in BOOLEAN } : v \in Variants }
 
 ---------------------------------------------------------------------------
 (***************************************************************************)
